@@ -251,7 +251,7 @@ impl<
                     .filter_map(|(k, v)| {
                         self.expiration(k)
                             .and_then(|t| {
-                                if t.is_expired() {
+                                if !t.is_zero() && t.is_expired() {
                                     let cost = policy.cost(k);
                                     policy.remove(k);
                                     self.try_remove(k, *v)
@@ -288,7 +288,7 @@ impl<
             for (k, v) in items.iter() {
                 let expiration = self.expiration(k);
                 if let Some(t) = expiration {
-                    if t.is_expired() {
+                    if !t.is_zero() && t.is_expired() {
                         let cost = policy.cost(k);
                         policy.remove(k);
                         let removed_item = self.try_remove(k, *v)?;
